@@ -614,6 +614,18 @@ def run_real(spec, max_attempts=400):
             if rec['attempt'] > max_attempts:
                 raise TooLong()
 
+    class ErrProbe(ConvergenceController):
+        # sits between the estimators (<= -75) and the adaptivity controllers (-50): remembers the estimate that
+        # get_new_step_size sees at iteration maxiter (with avoid_restarts the step may go on iterating afterwards)
+        def setup(self, controller, params, description, **kwargs):
+            return {'control_order': -55, **super().setup(controller, params, description, **kwargs)}
+
+        def post_iteration_processing(self, controller, S, **kwargs):
+            if S.status.iter == S.params.maxiter:
+                rec['err_at_maxiter'][(rec['attempt'], int(S.status.slot))] = estimate(S.levels[0])
+
+    rec['err_at_maxiter'] = {}
+
     def estimate(L_):
         st = L_.status
         for key in spec.get('err_keys', ('error_embedded_estimate',)):
@@ -638,7 +650,8 @@ def run_real(spec, max_attempts=400):
                                   int(step.status.restarts_in_a_row), tok(L_.u[0]), tok(L_.uend),
                                   {'residual': L_.status.residual, 'restol': L_.params.restol,
                                    'order': L_.status.get('order_embedded_estimate'),
-                                   'force_done': bool(step.status.force_done)}))
+                                   'force_done': bool(step.status.force_done),
+                                   'err_at_maxiter': rec['err_at_maxiter'].get((rec['attempt'], int(step.status.slot)))}))
 
     if spec['problem'] == 'vdp':
         from pySDC.implementations.problem_classes.Van_der_Pol_implicit import vanderpol as prob
@@ -658,7 +671,7 @@ def run_real(spec, max_attempts=400):
         sweeper = getattr(rk, spec['sweeper'])
         sp = {}
     acls = getattr(adaptivity_mod, spec['adaptivity'])
-    cc = {acls: dict(spec['adaptivity_params']), AttemptCounter: {}}
+    cc = {acls: dict(spec['adaptivity_params']), AttemptCounter: {}, ErrProbe: {}}
     if spec.get('restarting'):
         cc[BasicRestarting.get_implementation(useMPI=False)] = dict(spec['restarting'])
     description = {'problem_class': prob, 'problem_params': pp, 'sweeper_class': sweeper, 'sweeper_params': sp,
@@ -704,22 +717,45 @@ def real_oracle(spec, res):
     info = res['info']
     ad = info.get('adaptivity', {})
     rs = info.get('restarting', {})
-    lim = dict(info.get('StepSizeLimiter', {}))
-    slope = dict(info.get('StepSizeSlopeLimiter', {}))
-    e_tol = ad.get('e_tol')
-    beta = ad.get('beta', 0.9)
+    ap = spec['adaptivity_params']
+    e_tol = ap['e_tol']
+    beta = ap.get('beta', 0.9)
     converged_family = spec['adaptivity'] in ('AdaptivityPolynomialError', 'AdaptivityExtrapolationWithinQ')
+    # the limits are the ones handed to the adaptivity controller (the documented way of configuring them);
+    # AdaptivityBase.dependencies has to turn them into StepSizeLimiter (+ StepSizeSlopeLimiter for slope keys)
+    abs_keys = [k for k in ('dt_min', 'dt_max') if k in ap]
+    slope_keys = [k for k in ('dt_slope_min', 'dt_slope_max', 'dt_rel_min_slope') if k in ap]
     P = {'max_restarts': rs.get('max_restarts', 10), 'crash': rs.get('crash_after_max_restarts', True),
          'rffs': rs.get('restart_from_first_step', False), 'e_tol': e_tol, 'strict': not converged_family, 'beta': beta,
          'maxiter': 0 if converged_family else spec['maxiter'],
-         'has_limit': 'StepSizeLimiter' in info, 'has_slope': 'StepSizeSlopeLimiter' in info}
-    P.update(lim)
-    P.update(slope)
+         'has_limit': bool(abs_keys or slope_keys), 'has_slope': bool(slope_keys)}
+    P.update({k: ap[k] for k in abs_keys + slope_keys})
+    bad0 = []
+    names = [n for n, _ in info.get('order', [])]
+    want = (['StepSizeLimiter'] if P['has_limit'] else []) + (['StepSizeSlopeLimiter'] if P['has_slope'] else [])
+    missing = [n for n in want if n not in names]
+    if info.get('order') is not None and missing:
+        bad0.append(('clip_in_range', {'what': 'step-size limits were configured on the adaptivity controller but the controller did '
+                                       'not load %s' % missing, 'limits': {k: ap[k] for k in abs_keys + slope_keys},
+                                       'convergence_controllers': names},
+                     {'kind': 'limiter-not-loaded', 'adaptivity': spec['adaptivity']}))
+    for n, keys in (('StepSizeLimiter', abs_keys), ('StepSizeSlopeLimiter', slope_keys)):
+        live = info.get(n, {})
+        wrong = {k: (ap[k], live.get(k)) for k in keys if n in info and live.get(k) != ap[k]}
+        if wrong:
+            bad0.append(('clip_in_range', {'what': '%s carries other limits than configured' % n, '(configured, live)': wrong},
+                         {'kind': 'limiter-params', 'adaptivity': spec['adaptivity']}))
+    if names:
+        pos = {n: names.index(n) for n in names}
+        chain = [n for n in (spec['adaptivity'], 'StepSizeSlopeLimiter', 'StepSizeLimiter', 'BasicRestartingNonMPI') if n in pos]
+        if [pos[n] for n in chain] != sorted(pos[n] for n in chain):
+            bad0.append(('proposal_formula', {'what': 'call order is not adaptivity, slope limiter, absolute limiter, restarting',
+                                              'convergence_controllers': info['order']}, {'kind': 'control_order', 'where': 'real'}))
     factor = ad.get('factor_if_not_converged', 4.0)
 
     def order_of(p):
         if spec['adaptivity'] == 'Adaptivity':
-            return p[3]
+            return spec['maxiter']      # order = S.status.iter at the moment of the proposal (iter == maxiter)
         if spec['adaptivity'] == 'AdaptivityRK':
             return ad.get('update_order')
         if spec['adaptivity'] == 'AdaptivityPolynomialError':
@@ -732,13 +768,19 @@ def real_oracle(spec, res):
             return None
         return p[5] is not None and p[5] >= e_tol
 
-    bad = []
+    bad = list(bad0)
 
     def proposal(a, i, p):
         if p[5] is None or p[6] is None:
             return None
-        if converged_family and float(p[6]) in (float(_limit_py(p[2] / factor, p[2], True, P)), float(_limit_py(p[2] / factor, p[2], False, P))):
-            return None          # trigger_restart_upon_nonconvergence: dt / factor_if_not_converged
+        if not converged_family:
+            # Adaptivity / AdaptivityRK propose once, at iteration maxiter, from the estimate of that iteration
+            e_m = p[10].get('err_at_maxiter')
+            if e_m is None:
+                return None
+            return beta * p[2] * (e_tol / e_m) ** (1.0 / order_of(p))
+        if converged_family and p[10].get('force_done'):
+            return p[2] / factor          # trigger_restart_upon_nonconvergence: dt / factor_if_not_converged
         o = order_of(p)
         if o is None:
             return None
@@ -773,6 +815,13 @@ def gen_real_spec(rng, kind):
             spec['lam'] = rng.choice([-1.0, -5.0, -20.0])
             spec['lam_im'] = rng.choice([0.0, 3.0])
         ap = {'e_tol': tol}
+    elif kind == 'avoid':
+        # Adaptivity(avoid_restarts=True): a step that misses the tolerance at maxiter may go on iterating
+        spec = {'problem': 'vdp', 'sweeper': 'sdc', 'adaptivity': 'Adaptivity', 'num_procs': 1, 'maxiter': rng.choice([3, 4]),
+                'dt0': rng.choice([0.01, 0.02]), 'num_nodes': rng.choice([3, 4]), 'QI': 'LU', 'mu': rng.choice([2.0, 5.0]),
+                'Tend': rng.choice([0.5, 1.0])}
+        tol = 10 ** rng.uniform(-8, -6)
+        ap = {'e_tol': tol, 'avoid_restarts': True}
     elif kind == 'rk':
         prob = rng.choice(['vdp', 'lorenz'])
         spec = {'problem': prob, 'sweeper': rng.choice(['Cash_Karp', 'DIRK43', 'ESDIRK53', 'Heun_Euler']), 'adaptivity': 'AdaptivityRK',
@@ -813,7 +862,7 @@ def real_runs(ck, report):
     """Real adaptive runs, checked by the implementation-side oracle only."""
     rng = ck.rng
     thorough = ck.tier == 'thorough'
-    plan = [('embedded', 36 if thorough else 12), ('rk', 16 if thorough else 5),
+    plan = [('embedded', 36 if thorough else 12), ('avoid', 10 if thorough else 3), ('rk', 16 if thorough else 5),
             ('polynomial', 16 if thorough else 5), ('extrapolation', 12 if thorough else 4)]
     stats = {}
     # a fixed, unscripted history in which a block is restarted from a middle slot while the Tend cap binds
@@ -828,7 +877,22 @@ def real_runs(ck, report):
         {'problem': 'vdp', 'sweeper': 'sdc', 'adaptivity': 'AdaptivityExtrapolationWithinQ', 'num_procs': 1, 'maxiter': 4, 'dt0': 0.2,
          'restol': 1e-7, 'num_nodes': 3, 'QI': 'IE', 'Tend': 1.0, 'err_keys': ('error_extrapolation_estimate',),
          'adaptivity_params': {'e_tol': 1e-5}}]
+    # fixed histories with Adaptivity(avoid_restarts=True) in which steps take two or more extra sweeps
+    avoid = [{'problem': 'vdp', 'mu': 5.0, 'sweeper': 'sdc', 'adaptivity': 'Adaptivity', 'num_procs': 1, 'maxiter': 3, 'dt0': 0.01,
+              'num_nodes': 4, 'QI': 'LU', 'Tend': 1.0, 'adaptivity_params': {'e_tol': 1e-7, 'avoid_restarts': True}},
+             {'problem': 'vdp', 'mu': 2.0, 'sweeper': 'sdc', 'adaptivity': 'Adaptivity', 'num_procs': 1, 'maxiter': 3, 'dt0': 0.01,
+              'num_nodes': 4, 'QI': 'LU', 'Tend': 1.0, 'adaptivity_params': {'e_tol': 1e-8, 'avoid_restarts': True}}]
+    # fixed histories of the converged-collocation family WITHOUT interpolation between restarts and with limits that bind
+    nointerp = [
+        {'problem': 'vdp', 'mu': 2.0, 'sweeper': 'sdc', 'adaptivity': 'AdaptivityPolynomialError', 'num_procs': 1, 'maxiter': 30, 'dt0': 0.01,
+         'restol': 1e-10, 'num_nodes': 3, 'QI': 'LU', 'Tend': 1.0,
+         'adaptivity_params': {'e_tol': 1e-6, 'interpolate_between_restarts': False, 'dt_slope_max': 1.2, 'dt_slope_min': 0.8,
+                               'dt_min': 5e-3, 'dt_max': 3e-2}},
+        {'problem': 'vdp', 'mu': 2.0, 'sweeper': 'sdc', 'adaptivity': 'AdaptivityExtrapolationWithinQ', 'num_procs': 1, 'maxiter': 30,
+         'dt0': 0.01, 'restol': 1e-10, 'num_nodes': 3, 'QI': 'LU', 'Tend': 1.0, 'err_keys': ('error_extrapolation_estimate',),
+         'adaptivity_params': {'e_tol': 1e-6, 'interpolate_between_restarts': False, 'dt_max': 2e-2}}]
     todo = [('embedded-pinned', pinned)] + [('nonconvergence-pinned', sp) for sp in nonconv] + \
+           [('avoid-restarts-pinned', sp) for sp in avoid] + [('no-interpolation-pinned', sp) for sp in nointerp] + \
            [(kind, None) for kind, n in plan for _ in range(n)]
     for kind, spec in todo:
         if True:
@@ -852,3 +916,76 @@ def real_runs(ck, report):
                                'how': 'harness.c09_lib.run_real(spec); harness.c09_lib.real_oracle(spec, res)'},
                    prefix='real %s run: ' % kind)
     ck.cov['real_runs'] = stats
+
+
+# ----------------------------------------------------------------------------- avoid_restarts decision table
+def decision_table():
+    """Call the REAL AdaptivityBase.determine_restart (Adaptivity with and without avoid_restarts) and the real
+    CheckConvergence.check_convergence on a live step whose status is set by hand, over a grid of
+    (iteration, error estimate, contraction factor, iterations to convergence).
+    Returns (cases, coq_text): cases = [(key dict, (restart, force_continue) of the real code)], and a Coq file that
+    evaluates Model.ConvCtrl.adapt_decide / step_done on the same grid."""
+    from pySDC.implementations.controller_classes.controller_nonMPI import controller_nonMPI
+    from pySDC.implementations.convergence_controller_classes.adaptivity import Adaptivity
+    from pySDC.implementations.convergence_controller_classes.check_convergence import CheckConvergence
+    from pySDC.implementations.problem_classes.TestEquation_0D import testequation0d
+    from pySDC.implementations.sweeper_classes.generic_implicit import generic_implicit
+    logging.disable(logging.CRITICAL)
+    tol = 1e-4
+    maxiter = 3
+    cases, coq = [], []
+    done_cases, done_coq = [], []
+    try:
+        for avoid in (True, False):
+            description = {'problem_class': testequation0d, 'problem_params': {'lambdas': np.array([-1.0 + 0j]), 'u0': 1.0 + 0j},
+                           'sweeper_class': generic_implicit,
+                           'sweeper_params': {'quad_type': 'RADAU-RIGHT', 'num_nodes': 3, 'QI': 'IE'},
+                           'level_params': {'dt': 0.1, 'restol': -1.0}, 'step_params': {'maxiter': maxiter},
+                           'convergence_controllers': {Adaptivity: {'e_tol': tol, 'avoid_restarts': avoid}}}
+            controller = controller_nonMPI(num_procs=1, description=description,
+                                           controller_params={'logger_level': 90, 'dump_setup': False, 'mssdc_jac': False})
+            A = [C for C in controller.convergence_controllers if type(C).__name__ == 'Adaptivity'][0]
+            S = controller.MS[0]
+            S.status.slot = 0
+            L = S.levels[0]
+            L.status.time = 0.0
+            order = int(L.sweep.coll.order)
+            for it in (1, 2, 3, 4, 5, 6):
+                for e in (0.5 * tol, tol, 2.0 * tol):
+                    for rho in (0.5, 1.0, 1.5):
+                        for more in (0, 1, 2, 4):
+                            S.status.iter = it
+                            S.status.restart = False
+                            S.status.force_continue = False
+                            L.status.error_embedded_estimate = e
+                            L.status.__dict__['contraction_factor'] = rho
+                            L.status.__dict__['iter_to_convergence'] = more
+                            A.determine_restart(controller, S, MS=[S])
+                            got = (bool(S.status.restart), bool(S.status.force_continue))
+                            cases.append(({'avoid_restarts': avoid, 'iter': it, 'maxiter': maxiter, 'e_est': e, 'e_tol': tol,
+                                           'contraction_factor': rho, 'iter_to_convergence': more, 'coll_order': order}, got))
+                            coq.append('(%s, %d%%nat, %d%%nat, %d%%nat, %s, %s)' % ('true' if avoid else 'false', it, more, order,
+                                                                                   cfloat(e), cfloat(rho)))
+            if avoid:
+                for it in (0, 2, 3, 4):
+                    for fd in (False, True):
+                        for fc in (False, True):
+                            S.status.iter = it
+                            S.status.force_done = fd
+                            S.status.force_continue = fc
+                            L.status.residual = 1.0
+                            L.status.sweep = 1
+                            got = bool(CheckConvergence.check_convergence(S))
+                            done_cases.append(({'iter': it, 'maxiter': maxiter, 'force_done': fd, 'force_continue': fc}, got))
+                            done_coq.append('(%d%%nat, %s, %s)' % (it, 'true' if fd else 'false', 'true' if fc else 'false'))
+                S.status.force_done = False
+                S.status.force_continue = False
+    finally:
+        logging.disable(logging.NOTSET)
+    cfg = coq_cfg({'max_restarts': 10, 'crash': True, 'rffs': False, 'e_tol': tol, 'Tend': 1.0, 'dt0': 0.1}, [])
+    text = (COQ_HEADER + 'Definition c := %s.\n' % cfg +
+            'Definition cases : list (bool * nat * nat * nat * float * float) := [\n' + ';\n'.join(coq) + '].\n'
+            "Eval vm_compute in map (fun '(av, it, more, ord, e, rho) => adapt_decide num_float c av it %d more ord e rho false false) cases.\n" % maxiter +
+            'Definition dcases : list (nat * bool * bool) := [\n' + ';\n'.join(done_coq) + '].\n'
+            "Eval vm_compute in map (fun '(it, fd, fc) => step_done it %d fd fc) dcases.\n" % maxiter)
+    return cases, done_cases, text
